@@ -7,6 +7,7 @@ import (
 	"math/big"
 	"sort"
 	"strings"
+	"sync"
 
 	"gocv/smt"
 
@@ -26,6 +27,7 @@ type Machine struct {
 	Globals   map[*ssa.Global]int
 	MaxSteps  int
 	LoopBound int
+	NoMerge   bool // disable if-conversion (debugging)
 	// CallHook lets the verifier replace a call by the callee's contract.
 	CallHook func(p *Path, fn *ssa.Function, args []Val, site ssa.Instruction) (Val, bool)
 	// LoopHook is called on every arrival at a loop header that carries an
@@ -88,6 +90,24 @@ func IsPathEnd(r interface{}) (string, bool) {
 		return e.reason, true
 	}
 	return "", false
+}
+
+// cacheMu guards the per-machine name caches (machines are shallow-copied per
+// unit and explored in parallel; the caches are shared maps).
+var cacheMu sync.Mutex
+
+// Clone returns a shallow copy sharing program, base heap and caches.
+func (m *Machine) Clone() *Machine {
+	cacheMu.Lock()
+	if m.siteNames == nil {
+		m.siteNames = map[ssa.Instruction]string{}
+	}
+	if m.loopHeads == nil {
+		m.loopHeads = map[*ssa.Function]map[*ssa.BasicBlock]int{}
+	}
+	cacheMu.Unlock()
+	c := *m
+	return &c
 }
 
 type pathEnd struct{ reason string }
@@ -318,7 +338,9 @@ func (p *Path) arrGet(a *Arr, i *smt.Term, site string) Val {
 	}
 	if k, ok := i.Uint64(); ok {
 		if k >= uint64(len(a.Elems)) {
-			panic(unsupported(fmt.Sprintf("internal: concrete index %d out of backing array %d at %s", k, len(a.Elems), site)))
+			// the bounds obligation of this access has been recorded (and
+			// assumed) already: the path cannot continue
+			p.Stop("out-of-bounds")
 		}
 		return a.Elems[k]
 	}
@@ -348,7 +370,7 @@ func (p *Path) arrSet(a *Arr, i *smt.Term, v Val, site string) *Arr {
 	}
 	if k, ok := i.Uint64(); ok {
 		if k >= uint64(len(a.Elems)) {
-			panic(unsupported(fmt.Sprintf("internal: concrete store index %d out of backing array %d at %s", k, len(a.Elems), site)))
+			p.Stop("out-of-bounds")
 		}
 		e := append([]Val{}, a.Elems...)
 		e[k] = v
@@ -389,6 +411,8 @@ func (p *Path) StoreTo(ptr Ptr, v Val, site string) {
 // ---------- naming ----------
 
 func (m *Machine) siteName(in ssa.Instruction, kind string) string {
+	cacheMu.Lock()
+	defer cacheMu.Unlock()
 	if m.siteNames == nil {
 		m.siteNames = map[ssa.Instruction]string{}
 	}
@@ -553,6 +577,7 @@ func (p *Path) CallClosure(c *Closure, args []Val, site ssa.Instruction) Val {
 func (p *Path) run(fr *Frame) Val {
 	b := fr.Fn.Blocks[0]
 	var prev *ssa.BasicBlock
+	var merged map[*ssa.Phi]Val // phi values of the block being entered, when it was reached by if-conversion
 	for {
 		fr.Visits[b]++
 		if p.M.LoopHook != nil {
@@ -578,6 +603,10 @@ func (p *Path) run(fr *Frame) Val {
 				break
 			}
 			nphi++
+			if merged != nil {
+				phiVals = append(phiVals, merged[ph])
+				continue
+			}
 			idx := -1
 			for i, pb := range b.Preds {
 				if pb == prev {
@@ -593,6 +622,7 @@ func (p *Path) run(fr *Frame) Val {
 		for i := 0; i < nphi; i++ {
 			fr.Locals[b.Instrs[i].(*ssa.Phi)] = phiVals[i]
 		}
+		merged = nil
 		var next *ssa.BasicBlock
 		for _, in := range b.Instrs[nphi:] {
 			p.Steps++
@@ -604,6 +634,13 @@ func (p *Path) run(fr *Frame) Val {
 				next = b.Succs[0]
 			case *ssa.If:
 				c := p.get(fr, x.Cond).(*smt.Term)
+				if !c.IsConst() && !p.M.NoMerge {
+					if mr, ok := p.mergeIf(fr, b, c, 0); ok {
+						merged = mr.vals
+						next = mr.join
+						break
+					}
+				}
 				if p.Decide(c) {
 					next = b.Succs[0]
 				} else {
@@ -652,6 +689,8 @@ func (p *Path) run(fr *Frame) Val {
 // ---------- loop structure ----------
 
 func (m *Machine) loopInfo(fn *ssa.Function) map[*ssa.BasicBlock]int {
+	cacheMu.Lock()
+	defer cacheMu.Unlock()
 	if m.loopHeads == nil {
 		m.loopHeads = map[*ssa.Function]map[*ssa.BasicBlock]int{}
 	}
